@@ -776,10 +776,12 @@ var corpus = func() []string {
 		"H a0:regIDWithPublicKey:i0:k0;a0:addKeyByIndex:i0:k1:1:-;a1:addService:i0:s0:p0:2;a0:setAuthKey:i0:2:1;a1:addService:i0:s0:p0:2;a1:removeKeyByIndex:i0:k0:2;a0:addService:i0:s1:p0:1;a1:addKeyByIndex:i0:k0:2:-;a1:removeKeyByIndex:i0:k1:2;a1:verifySignature:i0:2",
 		// revocation is final
 		"H a0:regIDWithPublicKey:i0:k0;a0:revokeID:i0:1;a0:regIDWithPublicKey:i0:k0;a1:regIDWithPublicKey:i0:k1;a0:addKeyByIndex:i0:k1:1:-;a0:regIDWithAttributes:i0:k0:n0=v0;a0:regIDWithController:i0:G0():S~I0",
-		// single controller; index 0 of removeKeyByController panics after authorization
+		// single controller; key index 0 of removeKeyByController / removeKeyByRecovery (panicked in revokePkByIndex before /repo bdce7b3a; a reversion is class panic-<method>)
 		"H a0:regIDWithPublicKey:i0:k0;a0:regIDWithController:i1:i0:I1;a0:addKeyByController:i1:k2:I1:-;-:addKeyByController:i1:k3:I1:-;a0:removeKeyByController:i1:0:I1;a0:removeKeyByController:i1:1:I1;a0:revokeIDByController:i1:I1;a0:regIDWithController:i1:i0:I1",
 		// group controller with thresholds, nested group, unmet threshold, unwitnessed extra signer
 		"H a0:regIDWithPublicKey:i0:k0;a1:regIDWithPublicKey:i1:k1;a2:regIDWithPublicKey:i2:k2;a0+a1:regIDWithController:i3:G2(i0,i1,G1(i2)):Si0.1+i1.1;a0:addAttributesByController:i3:n0=v0:Si0.1;a0+a2:addAttributesByController:i3:n0=v0:Si0.1+i2.1;a0+a2:addAttributesByController:i3:n1=v0:Si0.1+i2.1+i1.1;a2:removeController:i3:1",
+		// the same index-0 witness through the recovery group
+		"H a0:regIDWithPublicKey:i0:k0;a1:regIDWithPublicKey:i1:k1;a0:setRecovery:i0:G1(i1):1;a1:removeKeyByRecovery:i0:0:Si1.1;a1:removeKeyByRecovery:i0:4294967296:Si1.1;a1:removeKeyByRecovery:i0:1:Si1.1",
 		// threshold-0 group: no witness at all is a valid proof (as configured)
 		"H -:regIDWithController:i0:G0():S~I0;-:addKeyByController:i0:k0:S~I0:-;-:revokeIDByController:i0:S~I0",
 		// recovery group: set, use, update, remove; deprecated recovery address; storage-version quirks of addKey/removeKey
